@@ -45,13 +45,20 @@ class Ctx:
             return False
         return True
 
-    def need_fn(self, crate, name):
+    def need_fn(self, crate, name, expand=False):
         try:
             f = self.prog.fn(crate, name)
         except KeyError as e:
             self.ob("anchor", "fn:" + name, False, "anchor missing: function %s not found in crate %s" % (name, crate))
             return None
         self.analysed_fns.add(f.name)
+        if expand:
+            # private single-call-site helpers (a function split into phases) are read as part of their only caller
+            from .inline import expand as _expand
+            g = _expand(self.prog, f)
+            for h in getattr(g, "inlined", []):
+                self.analysed_fns.add(h)
+            return g
         return f
 
     def sample(self, s):
